@@ -599,10 +599,11 @@ impl Scheduler {
                 QueueState::Panicked            => RunAction::Panic,
                 QueueState::Pending             => RunAction::Busy,
                 QueueState::Idle                => { 
-                    core.state = QueueState::Running;
                     if core.queue.len() == 0 {
+                        core.state = QueueState::Running;
                         RunAction::Immediate 
                     } else {
+                        // Jobs are queued but nothing has picked them up yet: leave the queue alone so it can still be rescheduled
                         RunAction::Busy
                     } 
                 }
